@@ -813,12 +813,12 @@ pub(crate) fn find_text_regex_select_expressions<'a, 'b>(
         let foundexpressions: Vec<_> = if let Some(regexset) = precompiledset {
             regexset.matches(text).into_iter().collect()
         } else {
-            RegexSet::new(expressions.iter().map(|x| x.as_str()))
-                .map_err(|e| {
-                    StamError::RegexError(e, "Parsing regular expressions in search_text()")
-                })?
-                .matches(text)
-                .into_iter()
+            //each expression is tried by itself: a set rebuilt from the text of the patterns would lose the flags they were built with
+            expressions
+                .iter()
+                .enumerate()
+                .filter(|(_, expression)| expression.is_match(text))
+                .map(|(i, _)| i)
                 .collect()
         };
         foundexpressions
